@@ -64,6 +64,7 @@ class Contract:
     bodytags: Dict[str, tuple] = field(default_factory=dict)
     holds: List[tuple] = field(default_factory=list)   # (var, decl_regex, until_regex, oid, tags, src)
     callsites: List[tuple] = field(default_factory=list)  # (call_regex, oid, tags): this fn is the only caller
+    nohandle: List[tuple] = field(default_factory=list)   # (init_regex, at_regex, oid, tags): no local initialised by <init> is alive at <at>
     mustcall: List[tuple] = field(default_factory=list)   # (call_regex, oid, tags): called unconditionally (top block of the body)
     sameas: Optional[tuple] = None   # (addr, regex, replacement, oid suffix, src)
     contains: List[tuple] = field(default_factory=list)   # (regex, oid, tags): the body still contains the call
@@ -195,6 +196,11 @@ def parse_file(path: str) -> List[Contract]:
             if not mm:
                 raise ContractError('%s: @holds <var> from /re/ until /re/ <id> [tags]' % where)
             cur.holds.append((mm.group(1), mm.group(2), mm.group(3), mm.group(4), mm.group(5).split(), where))
+        elif d == 'nohandle':
+            mm = re.match(r'/(.*?)/\s+at\s+/(.*)/\s+(\S+)\s+\[([^\]]*)\]\s*$', arg)
+            if not mm:
+                raise ContractError('%s: @nohandle /init-regex/ at /stmt-regex/ <id> [tags]' % where)
+            cur.nohandle.append((mm.group(1), mm.group(2), mm.group(3), mm.group(4).split()))
         elif d == 'mustcall':
             mm = re.match(r'/(.*)/\s+(\S+)\s+\[([^\]]*)\]\s*$', arg)
             if not mm:
